@@ -1,14 +1,23 @@
 #!/usr/bin/env python3
-"""prints the markdown table of seeded changes (DESIGN 9.6) from seeded/*/meta.json"""
-import json, os, sys
-base = os.path.join(os.path.dirname(os.path.dirname(os.path.abspath(__file__))), "seeded")
-print("| id | property | first pass | now caught by | needs to manifest (author's words, shortened) |")
-print("|----|----------|------------|---------------|-----------------------------------------------|")
+"""prints the markdown table of seeded changes (DESIGN 9.6): first-pass verdict from seeded/*/meta.json, the rules of
+the seed's own property that report it on the current tree (recomputed), and what it needs to manifest"""
+import json, os, re, sys
+VERIF = os.path.dirname(os.path.dirname(os.path.abspath(__file__)))
+sys.path.insert(0, VERIF)
+from gverif.index import Repo
+from gverif.cli import run_property
+from gverif import seeded
+base = os.path.join(VERIF, "seeded")
+root = Repo("/repo", inline=False)
+print("| id | property | round | first pass | reported now by | needs to manifest (author's words, shortened) |")
+print("|----|----------|-------|------------|-----------------|-----------------------------------------------|")
 for sid in sorted(os.listdir(base)):
-    m = json.load(open(os.path.join(base, sid, "meta.json")))
-    rules = sorted(set(v["rule"] for v in m.get("static_check", {}).get("violations", [])))
+    d = os.path.join(base, sid)
+    m = json.load(open(os.path.join(d, "meta.json")))
+    repo = Repo("/repo", overlay=seeded.overlay_of(root, d))
+    st, lines, ctx, err = run_property(m["property"], repo, "quick", 0, write=False)
+    rules = sorted(set(v["rule"] for v in ctx.violations)) or (["(analysis error)"] if err else ["-"])
     needs = " ".join(m.get("needs_to_manifest", "").split())
-    import re
     mm = re.search(r"(needs?[^.]*\.|manifest[^.]*\.)", needs, re.I)
-    short = (mm.group(0) if mm else needs[:140])[:170]
-    print("| %s | %s | %s | %s | %s |" % (sid, m["property"], m.get("first_pass", "caught"), ", ".join(rules) or "-", short.replace("|", "/")))
+    short = (mm.group(0) if mm else needs[:140])[:150]
+    print("| %s | %s | %s | %s | %s | %s |" % (sid, m["property"], m.get("round", 1), m.get("first_pass", "caught"), ", ".join(rules), short.replace("|", "/")))
